@@ -449,3 +449,27 @@ impl HuginnNetTls {
         }
     }
 }
+
+/// verif hook H3: public doorway to the private per-packet and packet-loop paths, so a simulator
+/// can be the packet source. Calls the private functions verbatim; compiled only under the guard.
+#[cfg(huginn_net_verif)]
+impl HuginnNetTls {
+    pub fn verif_process_packet(
+        &mut self,
+        packet: &[u8],
+    ) -> Result<Option<TlsClientOutput>, HuginnNetTlsError> {
+        self.process_packet(packet)
+    }
+
+    pub fn verif_process_with<F>(
+        &mut self,
+        packet_fn: F,
+        sender: Sender<TlsClientOutput>,
+        cancel_signal: Option<Arc<AtomicBool>>,
+    ) -> Result<(), HuginnNetTlsError>
+    where
+        F: FnMut() -> Option<Result<Vec<u8>, HuginnNetTlsError>>,
+    {
+        self.process_with(packet_fn, sender, cancel_signal)
+    }
+}
